@@ -59,6 +59,9 @@ def gen_project(rng, stream="structured", n_tasks=None, facilities=None, fs_only
             for pk in preds:
                 kind = 0 if fs_only else rng.choice(kinds_w)
                 edges.append([order[pk], pos, kind])
+                if not fs_only and rng.random() < 0.06:
+                    # two links between one pair of tasks (e.g. SS + FF, "runs alongside")
+                    edges.append([order[pk], pos, rng.choice([k2 for k2 in (0, 1, 2, 3) if k2 != kind])])
     rng.shuffle(edges)
     # --- components
     comps = []
@@ -96,7 +99,9 @@ def gen_project(rng, stream="structured", n_tasks=None, facilities=None, fs_only
                     skills[str(nm)] = qs(rng.choice([Fraction(1), Fraction(1), Fraction(1, 2), Fraction(2), Fraction(1, 4), Fraction(3, 2)]))
                 elif r < 0.7:
                     skills[str(nm)] = "0/1"
-            ws.append({"skills": skills, "fskills": {}, "cost": qs(rng.choice([Fraction(0), Fraction(1), Fraction(5, 2), Fraction(10)])),
+                elif r < 0.72:
+                    skills[str(nm)] = "-1/2"        # a negative entry is no skill
+            ws.append({"skills": skills, "fskills": {}, "cost": qs(rng.choice([Fraction(0), Fraction(1), Fraction(5, 2), Fraction(10), Fraction(1), Fraction(5, 2), Fraction(1, 2 ** 40)])),
                        "solo": rng.random() < 0.12, "abs": [], "mainwp": None})
         teams.append({"workers": ws})
     # --- workplaces / facilities
@@ -114,10 +119,13 @@ def gen_project(rng, stream="structured", n_tasks=None, facilities=None, fs_only
                         skills[str(nm)] = qs(rng.choice([Fraction(1), Fraction(1), Fraction(1, 2), Fraction(2)]))
                     elif r < 0.72:
                         skills[str(nm)] = "0/1"
-                fs.append({"skills": skills, "cost": qs(rng.choice([Fraction(0), Fraction(1), Fraction(3)])),
+                    elif r < 0.74:
+                        skills[str(nm)] = "-1/2"
+                fs.append({"skills": skills, "cost": qs(rng.choice([Fraction(0), Fraction(1), Fraction(3), Fraction(1), Fraction(3), Fraction(1, 2 ** 40)])),
                            "solo": rng.random() < 0.1, "abs": []})
             total = sum(Fraction(c["size"]) for c in comps) or Fraction(1)
-            cap = rng.choice([total, total, Fraction(1), Fraction(2), Fraction(3, 2), total / 2 if (total / 2 * 8).denominator == 1 else Fraction(1)])
+            cap = rng.choice([total, total, Fraction(1), Fraction(2), Fraction(3, 2), total / 2 if (total / 2 * 8).denominator == 1 else Fraction(1),
+                              total, Fraction(2), Fraction(0) if pi > 0 else total])
             wps.append({"cap": qs(cap), "inputs": [], "facs": fs})
         for pi in range(nwp):
             if rng.random() < 0.25:
@@ -195,7 +203,7 @@ def gen_project(rng, stream="structured", n_tasks=None, facilities=None, fs_only
             wps[i]["parent"] = rng.randrange(i)
     case = {"tasks": tasks, "edges": edges, "comps": comps, "teams": teams, "wps": wps, "unit": 60,
             "int_deps": rng.random() < 0.12, "same_ids": rng.random() < 0.1,
-            "adopt_ids": rng.random() < 0.12,        # workers / facilities created without team_id / workplace_id (the container adopts them)
+            "adopt_ids": rng.random() < 0.12, "int_rules": rng.random() < 0.12,    # priority rules given by their numbers        # workers / facilities created without team_id / workplace_id (the container adopts them)
             "rank": rng.sample(range(8), 8)[:nt] if nt <= 8 else None,
             "crank": rng.sample(range(8), 8)[:nc] if nc <= 8 else None}
     return case
@@ -286,7 +294,10 @@ def gen_sim_op(rng, case, absences=True, vary_init=False):
     # state initialisation runs without its log-dependent parts
     return {"op": "simulate", "rule": rng.randrange(0, 9), "abs": ab, "auto_abs": rng.random() < 0.4,
             "init_state": True, "init_log": (rng.random() >= 0.08) if vary_init else True,
-            "max_time": rng.choice([40, 40, 40, 60, 6, 12])}
+            "max_time": rng.choice([40, 40, 40, 60, 6, 12]),
+            # simulate(error_tol=...) is documented but not used by simulate; a float max_time m - 0.5 stops where m does
+            **({"error_tol": rng.choice([0.25, 1e-3, 0.5])} if vary_init and rng.random() < 0.06 else {}),
+            **({"max_time_half": True} if vary_init and rng.random() < 0.06 else {})}
 
 
 def simplify_feasible(rng, case):
